@@ -9,14 +9,20 @@
       code can only produce after an address of a freed block was re-used, ABA – are included),
     * the choice between the direct and the lock-bit path is arbitrary (so every block size / boundary).
   The level-B model `Model/Queue/Spmc.lean` (blocks, `used`, packed head word with lock bit, freed and re-used
-  block addresses, `steal_into`, `Drop`) is the one replayed against the implementation; on every replayed
-  trace the driver executes the level-A steps alongside and checks the simulation relation
-  (`Model/Queue/SpmcSim.lean`). The refinement B → A is *checked on every trace*, not proved.
+  block addresses, `steal_into`, `Drop`; `n` queues, queue `q` owned by actor `q`) is the one replayed against the
+  implementation. The refinement B ⊑ A and block safety are PROVED for every number of actors and every
+  schedule (`spmc_refines_A`, `spmc_refines_A_step`, `spmc_block_safe`; invariants `InvS`, `InvG`, `Rel` in
+  `Proof/Queue/Spmc/`), and the level-A theorems are transported to level B (`spmcB_*`). The executable
+  simulation check of `Model/Queue/SpmcSim.lean` still runs alongside every replayed trace.
+  API discipline built into the level-B `step` (what the Rust type system enforces): `Drop` starts only when no
+  actor is inside a routine holding a reference to that queue, and no routine starts on a queue whose `Drop`
+  has started.
 -/
 import MayVerif.Proof.Queue.SpmcA.Step
 import MayVerif.Proof.Queue.SpmcA.Order
 import MayVerif.Proof.Queue.SpmcA.PushLog
 import MayVerif.Proof.Queue.Spmc.Steal
+import MayVerif.Proof.Queue.Spmc.Transport
 namespace MayVerif.SpmcA
 
 local notation "Tid" => Nat
@@ -139,21 +145,102 @@ theorem steal_into_returns_newest_requeues_rest :
         (∀ q pi k, pc = .pu4 q pi k → (sh'.qs q).tidx = pi + 1 ∧ (todo ≠ [] → pushQ pc' = some me))) :=
   ⟨deliver_steal, requeue_step⟩
 
-/-
-  **spmc_block_safe** (level B) – NOT PROVED; checked executably on every replayed implementation trace.
-  Full statement:
+/-- **Block safety** (level B, under adversarial re-use of freed block addresses). For every number of actors
+    and every schedule: no step accesses a field or a slot of a block after it was freed (`uaf`), no block is
+    freed twice (`dfree`), and a block that has been freed either had its `used` count brought to 0 (all
+    `BSZ` slots read – it is freed by `tFree`, which is entered only from the `used.fetch_sub` that reached 0)
+    or is the last block of a queue whose `Drop` has finished. -/
+theorem spmc_block_safe (n : Nat) (sched : List (Nat × Env)) :
+    (run (init n) sched).sh.uaf = false ∧ (run (init n) sched).sh.dfree = false ∧
+    (∀ b, b < (run (init n) sched).sh.nextB → ((run (init n) sched).sh.blks b).freed = true →
+        ((run (init n) sched).sh.blks b).used = 0 ∨
+        ((run (init n) sched).sh.qs ((run (init n) sched).sh.blks b).own).gone = true) ∧
+    (∀ t l vals, (run (init n) sched).pcs t = .tFree l vals →
+        ((run (init n) sched).sh.blks l.hb).used = 0 ∧ ((run (init n) sched).sh.blks l.hb).freed = false) := by
+  obtain ⟨as, h⟩ := sim_reach n sched
+  exact ⟨h.R.uaf, h.R.dfree, h.R.fr, h.R.tfree⟩
 
-      theorem spmc_block_safe (n : Nat) (sched : List (Tid × Env)) :
-          (run (init n) sched).sh.uaf = false ∧ (run (init n) sched).sh.dfree = false
+/-- **Level B refines level A.** Every reachable level-B state is simulated (`Sim`: the relation `Rel` of
+    `Proof/Queue/Spmc/Abs.lean` – `tail.index`, lock bit, logical head, slot contents, `used` counts, the
+    program point of every actor in every queue's instance, the values obtained – plus the structural
+    invariants) by level-A states, one instance per queue, each of which is a reachable state of the level-A
+    model (so every theorem above holds of it). -/
+theorem spmc_refines_A (n : Nat) (sched : List (Nat × Env)) :
+    ∃ as : Nat → SpmcA.St, Sim (run (init n) sched) as ∧
+      ∀ q, ∃ schedA, as q = SpmcA.run (SpmcA.init n) schedA := by
+  obtain ⟨as, h⟩ := sim_reach n sched
+  refine ⟨as, h, fun q => ?_⟩
+  obtain ⟨sch, hq⟩ := h.A q
+  exact ⟨sch, by rw [hq, run_n]; rfl⟩
 
-  (`uaf` is raised by any step that accesses a field or slot of a block after it was freed, `dfree` by a second
-  free; blocks are freed by `tstep` only at `tFree`, which is entered only from the `used.fetch_sub` that brought
-  `used` to 0, and at the end of `Drop`.) The replay machine evaluates both flags after every replayed step
-  (`SpmcReplay.invCheck`), matches every `free` note of the implementation with the model's `tFree`/`d3` step,
-  and a pointer into a freed block in an object position (`…@0` instead of `…@SpmcBlockN`) or a `Freed_` token
-  where the model expects a live block is a divergence. Missing for a proof: the level-B invariant (block chain
-  `start(next b) = start b + B`, `used b = B − #read slots`, head block live), i.e. the proved B → A refinement.
--/
+/-- **The simulation, step by step.** The initial states are related, and every step `step s t e = some s'` of
+    the level-B model (the function the replay executes) from a simulated state is matched by at most two
+    steps of `SpmcA.step` in every level-A instance (`Match`: in fact of actor `sw q t` in the instance of
+    the one queue the step works on, none in the others) that re-establish `Sim`. -/
+theorem spmc_refines_A_step :
+    (∀ n, Sim (init n) (fun _ => SpmcA.init n)) ∧
+    (∀ (s s' : St) (as : Nat → SpmcA.St) (t : Nat) (e : Env), Sim s as → step s t e = some s' →
+      ∃ as', (∀ q, ∃ l : List (Nat × SpmcA.Env), l.length ≤ 2 ∧ as' q = SpmcA.run (as q) l) ∧ Sim s' as') :=
+  ⟨sim_init, fun s s' as t e h hs => sim_step s s' as t e h hs⟩
+
+/-- **Exactly once, level B** (transported from `spmc_exactly_once`). `gcnt got q i` = how often logical index
+    `i` of queue `q` was obtained (returned by a pop / bulk_pop / steal_into or dropped by `Drop`):
+    at most once, only after it was published; not while `head` has not passed it; once `head` has passed it,
+    it either has been obtained or exactly one actor holds a claim on it (nothing is lost). -/
+theorem spmcB_exactly_once (n : Nat) (sched : List (Nat × Env)) (q i : Nat) (hq : q < n) :
+    gcnt (run (init n) sched).sh.got q i ≤ 1 ∧
+    (gcnt (run (init n) sched).sh.got q i = 1 → i < ((run (init n) sched).sh.qs q).tidx) ∧
+    (lhead (run (init n) sched) q ≤ i → gcnt (run (init n) sched).sh.got q i = 0) ∧
+    (i < lhead (run (init n) sched) q → gcnt (run (init n) sched).sh.got q i = 0 →
+        ∃ t, holds (run (init n) sched) q t i = true) ∧
+    (∀ t u, holds (run (init n) sched) q t i = true → holds (run (init n) sched) q u i = true → t = u) ∧
+    (∀ t, holds (run (init n) sched) q t i = true → gcnt (run (init n) sched).sh.got q i = 0) := by
+  obtain ⟨as, h⟩ := sim_reach n sched
+  exact exactly_once_of_sim _ as h q i (by rw [run_n]; exact hq)
+
+/-- **What is obtained is what was pushed, level B.** Every entry of `got` (actor, queue, logical index, value)
+    names a published index of an existing queue, and its value is the value number `i` of the push log of
+    that queue's level-A instance (`plog`: the values of the `push` calls in call order). -/
+theorem spmcB_values_pushed (n : Nat) (sched : List (Nat × Env)) :
+    ∃ as : Nat → SpmcA.St, Sim (run (init n) sched) as ∧
+      ∀ g, g ∈ (run (init n) sched).sh.got →
+        g.q < n ∧ g.i < ((run (init n) sched).sh.qs g.q).tidx ∧ (as g.q).sh.plog[g.i]? = some g.v := by
+  obtain ⟨as, h⟩ := sim_reach n sched
+  refine ⟨as, h, fun g hg => ?_⟩
+  have := values_of_sim _ as h g hg
+  rw [run_n] at this
+  exact this
+
+/-- **Never an uninitialised slot, level B.** No step reads a slot that was never written, nor a slot at or
+    beyond the published `tail.index` (the two ghost flags of the level-B model stay down). -/
+theorem spmcB_no_uninit (n : Nat) (sched : List (Nat × Env)) :
+    (run (init n) sched).sh.uninit = false ∧ (run (init n) sched).sh.unpub = false := by
+  obtain ⟨as, h⟩ := sim_reach n sched
+  exact ⟨h.R.uninit, h.R.unpub⟩
+
+/-- **A claim completes as soon as its slots are filled, level B.** A taker that spins on `tail.index` with the
+    directly claimed range `[lo, hi)` (`t8`; for `pop`: `hi = lo + 1`) always has an enabled step, and as soon as
+    `hi ≤ tail.index` that step leaves the loop towards the read of the slots. -/
+theorem spmcB_claim_completes (n : Nat) (sched : List (Nat × Env)) (t : Nat) (ht : t < n) (l : Loc) (lo hi : Nat) (e : Env)
+    (hw : (run (init n) sched).pcs t = .t8 l lo hi) :
+    ∃ s', step (run (init n) sched) t e = some s' ∧
+      (hi ≤ ((run (init n) sched).sh.qs l.q).tidx → s'.pcs t = .tF l lo hi false) := by
+  have hn : (run (init n) sched).n = n := by rw [run_n]; rfl
+  generalize run (init n) sched = s at *
+  obtain ⟨m, sh, pcs⟩ := s
+  simp only at hw hn
+  subst hn
+  simp only [step, ht, guard, hw, true_and, if_true, tstep]
+  refine ⟨_, rfl, ?_⟩
+  intro hp
+  simp [upd, hp]
+
+/-- **Owner order, level B.** The logical indices of queue `q` obtained by its owner (actor `q`), in the order
+    in which it obtained them, are strictly increasing. -/
+theorem spmcB_owner_order (n : Nat) (sched : List (Nat × Env)) (q : Nat) (hq : q < n) :
+    (ownerIdx (run (init n) sched).sh.got q).Pairwise (· < ·) := by
+  obtain ⟨as, h⟩ := sim_reach n sched
+  exact owner_order_of_sim _ as h q (by rw [run_n]; exact hq)
 
 -- non-vacuity (level B): the owner (actor 0) pushes 5, 6, 7; actor 1 steals: it returns 7 (the newest) and
 -- its own queue then holds 5, 6 (tail.index = 2, slots 0 and 1 of its first block)
@@ -163,6 +250,42 @@ example :
       [(1, .start (.steal 0))] ++ List.replicate 7 (1, .go) ++ List.replicate 3 (1, .go) ++ List.replicate 3 (1, .go))
     s.pcs 1 = .rSteal (some 7) ∧ (s.sh.qs 1).tidx = 2 ∧ (s.sh.blks 1).data 0 = some 5 ∧ (s.sh.blks 1).data 1 = some 6 ∧
     s.sh.uaf = false ∧ s.sh.unpub = false := by decide
+
+-- non-vacuity of `spmcB_exactly_once` / `spmcB_owner_order` / `spmcB_values_pushed`: in the run above index 2 of
+-- queue 0 (the value 7) was obtained once, by actor 1; the thief then pops its own queue: owner order [0]
+example :
+    let s := run (init 2) ([(0, .start (.push 0 5))] ++ List.replicate 4 (0, .go) ++ [(0, .start (.push 0 6))] ++
+      List.replicate 4 (0, .go) ++ [(0, .start (.push 0 7))] ++ List.replicate 4 (0, .go) ++
+      [(1, .start (.steal 0))] ++ List.replicate 7 (1, .go) ++ List.replicate 3 (1, .go) ++ List.replicate 3 (1, .go) ++
+      [(1, .go), (1, .start (.lpop 1))] ++ List.replicate 8 (1, .go))
+    gcnt s.sh.got 0 2 = 1 ∧ gcnt s.sh.got 0 3 = 0 ∧ lhead s 0 = 3 ∧ ownerIdx s.sh.got 1 = [0] ∧
+    s.sh.got.map (fun g => (g.t, g.q, g.i, g.v)) = [(1, 0, 0, 5), (1, 0, 1, 6), (1, 0, 2, 7), (1, 1, 0, 5)] := by decide
+
+-- a taker at `t8` exists (the hypothesis of `spmcB_claim_completes`): the stealer has made its direct claim
+example : (run (init 2) ([(0, .start (.push 0 5))] ++ List.replicate 4 (0, .go) ++
+    [(1, .start (.pop 0))] ++ List.replicate 5 (1, .go))).pcs 1 = .t8 ⟨0, .pop, .plain, 0, 0, 1, 0⟩ 0 1 := by decide
+
+-- a claim is held (the hypothesis of the "not lost" clause): the stealer has claimed [0, 3) and not yet read
+example :
+    let s := run (init 2) ([(0, .start (.push 0 5))] ++ List.replicate 4 (0, .go) ++ [(0, .start (.push 0 6))] ++
+      List.replicate 4 (0, .go) ++ [(0, .start (.push 0 7))] ++ List.replicate 4 (0, .go) ++
+      [(1, .start (.steal 0))] ++ List.replicate 5 (1, .go))
+    holds s 0 1 1 = true ∧ gcnt s.sh.got 0 1 = 0 ∧ lhead s 0 = 3 := by decide
+
+-- non-vacuity of `spmc_block_safe`: the owner fills the first block of its queue (32 pushes; the last one
+-- allocates the second block) and pops all 32 values: the last pop brings `used` to 0 and frees block 0
+-- (the `tFree` step), the queue goes on in block 1; nothing was touched after the free (`fillDrain`: Proof/Queue/Spmc/Transport.lean)
+example :
+    ((run (init 1) fillDrain).sh.blks 0).freed = true ∧ ((run (init 1) fillDrain).sh.blks 0).used = 0 ∧
+    ((run (init 1) fillDrain).sh.qs 0).head = ⟨1, 0, false⟩ ∧ (run (init 1) fillDrain).sh.uaf = false ∧
+    (run (init 1) fillDrain).sh.dfree = false ∧ (run (init 1) fillDrain).sh.got.length = 32 := by decide +kernel
+
+-- the `Drop` discipline: a `Drop` is refused while another actor is inside a routine on the queue, and accepted
+-- once that routine has returned; afterwards no routine starts on the queue
+example : step (run (init 2) [(1, .start (.pop 0)), (1, .go)]) 0 (.start (.drop 0)) = none ∧
+    (step (run (init 2) ([(1, .start (.pop 0))] ++ List.replicate 5 (1, .go))) 0 (.start (.drop 0))).isSome = true ∧
+    step (run (init 2) ([(0, .start (.drop 0))] ++ List.replicate 8 (0, .go))) 1 (.start (.pop 0)) = none ∧
+    ((run (init 2) ([(0, .start (.drop 0))] ++ List.replicate 8 (0, .go))).sh.qs 0).gone = true := by decide
 
 end MayVerif.Spmc
 
